@@ -2,7 +2,7 @@
    Only statements here; each is closed by `exact` of a lemma from proofs/ScriptFlagsLemmas.v / ScriptVerifyLemmas.v.
    has fl i = bit i of the flag set fl; flags_le f g = f is a subset of g; flags_valid = the combinations VerifyScript
    asserts (CLEANSTACK => P2SH and WITNESS, WITNESS => P2SH).  The checker ck (signatures, locktime, sequence) is an
-   arbitrary function that does not see the flags; the hash functions are arbitrary. *)
+   arbitrary function that does not see the flags; the hash functions and the taproot commitment oracle are arbitrary. *)
 From BV Require Import lib.Ints gen.Params_gen model.Script model.ScriptVerify
   proofs.ScriptFlagsLemmas proofs.ScriptVerifyLemmas.
 Local Open Scope Z_scope.
@@ -30,12 +30,14 @@ Qed.
 Print Assumptions C11_evalscript_single_flag.
 
 (* VerifyScript (scriptSig, scriptPubKey, P2SH, witness v0, CLEANSTACK, SIGPUSHONLY, WITNESS_UNEXPECTED ...): for two
-   valid flag combinations f subset of g, a spend that verifies under g verifies under f.  (Some (Ok tt) = the run is
-   inside the model, i.e. not a taproot spend under the TAPROOT flag, and returns true.) *)
-Theorem C11_verifyscript_soft_fork : forall sha256 ripemd160 sha1 ck f g scriptSig scriptPubKey witness,
+   valid flag combinations f subset of g, a spend that verifies under g verifies under f.  This includes taproot
+   (annex, key path, script path, leaf versions, the tapscript OP_SUCCESSx pre-scan, DISCOURAGE_OP_SUCCESS /
+   DISCOURAGE_UPGRADABLE_TAPROOT_VERSION / DISCOURAGE_UPGRADABLE_PUBKEYTYPE) with the commitment check as the arbitrary
+   oracle tap_commit, which does not see the flags.  (Some (Ok tt) = VerifyScript returns true.) *)
+Theorem C11_verifyscript_soft_fork : forall sha256 ripemd160 sha1 ck tap_commit f g scriptSig scriptPubKey witness,
   (forall i, has f i = true -> has g i = true) -> flags_valid f = true -> flags_valid g = true ->
-  verify_script sha256 ripemd160 sha1 g ck scriptSig scriptPubKey witness = Some (Ok tt) ->
-  verify_script sha256 ripemd160 sha1 f ck scriptSig scriptPubKey witness = Some (Ok tt).
+  verify_script sha256 ripemd160 sha1 g ck tap_commit scriptSig scriptPubKey witness = Some (Ok tt) ->
+  verify_script sha256 ripemd160 sha1 f ck tap_commit scriptSig scriptPubKey witness = Some (Ok tt).
 Proof. intros. eapply verify_script_mono; eauto. Qed.
 Print Assumptions C11_verifyscript_soft_fork.
 
@@ -68,10 +70,10 @@ Qed.
 Print Assumptions C11_policy_flags_contain_consensus_flags.
 
 (* hence: a spend accepted under the standard (policy) flags also verifies under the consensus flags of any block *)
-Theorem C11_policy_accepted_implies_consensus_valid : forall sha256 ripemd160 sha1 ck bf scriptSig scriptPubKey witness,
+Theorem C11_policy_accepted_implies_consensus_valid : forall sha256 ripemd160 sha1 ck tap_commit bf scriptSig scriptPubKey witness,
   In bf SCR_BLOCK_FLAGS_ALL ->
-  verify_script sha256 ripemd160 sha1 SCR_STANDARD_SCRIPT_VERIFY_FLAGS ck scriptSig scriptPubKey witness = Some (Ok tt) ->
-  verify_script sha256 ripemd160 sha1 bf ck scriptSig scriptPubKey witness = Some (Ok tt).
+  verify_script sha256 ripemd160 sha1 SCR_STANDARD_SCRIPT_VERIFY_FLAGS ck tap_commit scriptSig scriptPubKey witness = Some (Ok tt) ->
+  verify_script sha256 ripemd160 sha1 bf ck tap_commit scriptSig scriptPubKey witness = Some (Ok tt).
 Proof. exact policy_implies_consensus. Qed.
 Print Assumptions C11_policy_accepted_implies_consensus_valid.
 
@@ -82,7 +84,7 @@ Example C11_nonvacuous :
   let redeem := [81] in
   let spk := [169; 20] ++ repeat 7 20 ++ [135] in       (* HASH160 <20 bytes> EQUAL with a fake hash function below *)
   let h := fun _ : bytes => repeat 7 20 in
-  let v fl := verify_script h h h fl (stub_checker 0) [81; 1; 81] spk [] in
+  let v fl := verify_script h h h fl (stub_checker 0) (fun _ _ _ => false) [81; 1; 81] spk [] in
   v (Z.shiftl 1 SCR_FLAG_P2SH) = Some (Ok tt) /\
   v (Z.lor (Z.shiftl 1 SCR_FLAG_P2SH) (Z.lor (Z.shiftl 1 SCR_FLAG_WITNESS) (Z.shiftl 1 SCR_FLAG_CLEANSTACK))) = Some (Err SE_CLEANSTACK) /\
   flags_valid (Z.lor (Z.shiftl 1 SCR_FLAG_P2SH) (Z.lor (Z.shiftl 1 SCR_FLAG_WITNESS) (Z.shiftl 1 SCR_FLAG_CLEANSTACK))) = true /\
